@@ -207,6 +207,12 @@ func wallLimitFor(sc *scen.Scenario) time.Duration {
 	if sc != nil && sc.Extra != nil && sc.Extra["footprint"] != "" {
 		return 240 * time.Second
 	}
+	if sc != nil && sc.Extra != nil && sc.Extra["wall_limit_s"] != "" {
+		var s int
+		if fmt.Sscan(sc.Extra["wall_limit_s"], &s); s > 0 {
+			return time.Duration(s) * time.Second
+		}
+	}
 	return 75 * time.Second
 }
 
